@@ -468,7 +468,8 @@ def run(ctx):
                         if seed != ctx.seed + 5 and not (T or src in ('noise', 'two_noise')):
                             continue
                         cfgs.append(dict(rate=rate, t_start=t0, asc=asc, sources=src, seed=seed,
-                                         fch1=0.0 if asc else rate / 2, depth=depth))
+                                         fch1=0.0 if asc else rate / 2,
+                                         depth=(6 if (T and rate == 1e3 and t0 == 1.5 and seed == ctx.seed + 5) else depth)))
     ctx.pmap(case_stream, cfgs, chunk=1)
     ctx.pmap(case_compositions, [dict(c, N=N) for c in cfgs], chunk=2)
     ants = []
